@@ -15,6 +15,7 @@ from ..astutil import binds, binds_deep
 from ..cfg import CFG, solve
 from ..report import Undecided
 import copy
+import re
 
 IDX = 'gambit.util.indexing.AdvancedIndexingMixin'
 BASE = 'gambit.sigs.base'
@@ -609,9 +610,13 @@ class Sx:
     """One symbolic run of `fn` under `scenario` (dict test-key -> bool).  Terms are expressions over the function's inputs;
     the result of an effectful call is a reference `@n` into `self.calls` (evaluation order)."""
 
-    def __init__(self, fn, scenario, consts=None, what='', model=None, fi=None):
+    def __init__(self, fn, scenario, consts=None, what='', model=None, fi=None, recv_cls=None):
         self.fn, self.scenario, self.consts, self.what = fn, scenario, consts or {}, what or fn.name
         self.model, self.fi, self.depth = model, fi, 0
+        self.recv_cls = recv_cls or (fi.cls.qualname if fi is not None and fi.cls is not None else None)   # class whose MRO resolves self.<method>
+        self.top_first = fi.params()[0] if fi is not None and fi.params() else None
+        self.types = {}          # term text -> class it was tested to be an instance of (on this path)
+        self.top_cls = self.recv_cls
         self.env, self.attrs = {}, {}
         self.calls = []          # call terms, in evaluation order
         self.effects = []        # ('call', n) | ('store', target text, term) | ('setitem', target term, term) | ('loop', For node)
@@ -686,14 +691,29 @@ class Sx:
 
     # ----- calls to helpers that are not part of the reference tree (extracted code): their body is run in place
     def _helper(self, e):
+        """(helper FuncInfo, receiver term or None, class whose MRO applies inside it) for a call the evaluation can run in place."""
         from ..inline import known_symbols
-        if self.model is None or self.fi is None or self.depth >= 3:
+        if self.model is None or self.fi is None or self.depth >= 4:
             return None
-        f = e.func
-        h = None
-        first = self.fi.params()[0] if self.fi.params() else None
-        if isinstance(f, ast.Attribute) and isinstance(f.value, ast.Name) and f.value.id == first and first in ('self', 'cls') and self.fi.cls is not None and f.value.id not in self.env:
-            h = self.model.find_method(self.fi.cls.qualname, f.attr)
+        f, m = e.func, self.model
+        h = recv = cls_in = None
+        if isinstance(f, ast.Attribute):
+            if isinstance(f.value, ast.Call) and u(f.value) == 'super()' and self.fi.cls is not None and self.recv_cls is not None:
+                mro = m.mro(self.recv_cls)
+                after = mro[mro.index(self.fi.cls.qualname) + 1:] if self.fi.cls.qualname in mro else []
+                h = next((m.classes[c].methods[f.attr] for c in after if c in m.classes and f.attr in m.classes[c].methods), None)
+                recv, cls_in = self.env.get(self.fi.params()[0], ast.Name(id=self.fi.params()[0], ctx=ast.Load())), self.recv_cls
+            elif isinstance(f.value, (ast.Name, ast.Attribute)):
+                r = self.ev(f.value)
+                if isinstance(r, ast.Name) and r.id == self.top_first and r.id in ('self', 'cls') and self.top_cls is not None:
+                    h, recv, cls_in = m.find_method(self.top_cls, f.attr), r, self.top_cls
+                elif self.ktext(r) in self.types:
+                    cq = self.types[self.ktext(r)]
+                    h, recv, cls_in = m.find_method(cq, f.attr), r, cq
+                    if h is not None and h.qualname not in known_symbols():
+                        over = [c.qualname for c in m.subclasses(cq) if f.attr in c.methods]
+                        if over:
+                            raise Undecided(f'{self.what}: {u(f)}() is called on an object only known to be a {cq.rsplit(".", 1)[-1]}, and {over[0]} overrides it')
         elif isinstance(f, ast.Name) and f.id not in self.env:
             h = self.fi.module.functions.get(f.id)
         if h is None or h.qualname in known_symbols() or h.node is self.fn:
@@ -701,9 +721,10 @@ class Sx:
         a = h.node.args
         if a.vararg or a.kwarg or isinstance(h.node, ast.AsyncFunctionDef) or any(isinstance(n, (ast.Yield, ast.YieldFrom)) for n in ast.walk(h.node)):
             return None
-        return h
+        return (h, recv, cls_in)
 
-    def _run_helper(self, h, e):
+    def _run_helper(self, hr, e):
+        h, recv, cls_in = hr
         a = h.node.args
         params = [x.arg for x in a.posonlyargs + a.args]
         decos = {u(d) for d in h.node.decorator_list}
@@ -711,7 +732,7 @@ class Sx:
             raise Undecided(f'{self.what}: helper {h.qualname} is decorated ({sorted(decos)}): its effect cannot be evaluated')
         bound = {}
         if h.cls is not None and 'staticmethod' not in decos:
-            bound[params[0]] = self.ev(e.func.value) if isinstance(e.func, ast.Attribute) else ast.Name(id=params[0], ctx=ast.Load())
+            bound[params[0]] = copy.deepcopy(recv) if recv is not None else ast.Name(id=params[0], ctx=ast.Load())
             params = params[1:]
         if len(e.args) > len(params):
             raise Undecided(f'{self.what}: call of helper {h.qualname} does not fit its parameters')
@@ -726,15 +747,16 @@ class Sx:
                 if p_ not in defaults:
                     raise Undecided(f'{self.what}: call of helper {h.qualname} does not fit its parameters')
                 bound[p_] = defaults[p_]
-        saved = (self.env, self.outcome, self.fn, self.fi)
+        saved = (self.env, self.outcome, self.fn, self.fi, self.recv_cls)
         self.env, self.outcome, self.fn, self.fi = bound, None, h.node, h
+        self.recv_cls = cls_in or self.recv_cls
         self.depth += 1
         try:
             self.run([x for x in h.node.body if not (isinstance(x, ast.Expr) and isinstance(x.value, ast.Constant))])
             out = self.outcome
         finally:
             self.depth -= 1
-            self.env, self.fn, self.fi = saved[0], saved[2], saved[3]
+            self.env, self.fn, self.fi, self.recv_cls = saved[0], saved[2], saved[3], saved[4]
         if out is not None and out[0] == 'raise':
             self.outcome = out           # propagates
             return ast.Constant(value=None)
@@ -790,7 +812,12 @@ class Sx:
                 return all(self.truth(v) for v in t.values)
             return any(self.truth(v) for v in t.values)
         if isinstance(t, ast.Call) and isinstance(t.func, ast.Name) and t.func.id == 'isinstance' and len(t.args) == 2:
-            return self.ask(('isinstance', self.ktext(t.args[0]), self.ktext(t.args[1])))
+            ans = self.ask(('isinstance', self.ktext(t.args[0]), self.ktext(t.args[1])))
+            if ans and self.model is not None and self.fi is not None and isinstance(t.args[1], (ast.Name, ast.Attribute)):
+                q = self.model.resolve(self.fi.module, t.args[1])
+                if q in self.model.classes:
+                    self.types[self.ktext(t.args[0])] = q
+            return ans
         if isinstance(t, ast.Compare):
             res, left = True, t.left
             for op, right in zip(t.ops, t.comparators):
@@ -935,7 +962,7 @@ def _canon_term(t, scenario):
     return ast.fix_missing_locations(T().visit(copy.deepcopy(t)))
 
 
-def sx_paths(fi, consts=None, limit=256, model=None):
+def sx_paths(fi, consts=None, limit=256, model=None, recv_cls=None):
     """Every path of the function: [(scenario, Sx)] - one run per combination of the tests it consults."""
     body = [s for s in fi.node.body if not (isinstance(s, ast.Expr) and isinstance(s.value, ast.Constant))]
     out, todo = [], [{}]
@@ -943,7 +970,7 @@ def sx_paths(fi, consts=None, limit=256, model=None):
         sc = todo.pop()
         if len(out) + len(todo) > limit:
             raise Undecided(f'{fi.qualname}: more than {limit} paths')
-        sx = Sx(fi.node, sc, consts, fi.qualname, model, fi)
+        sx = Sx(fi.node, sc, consts, fi.qualname, model, fi, recv_cls)
         try:
             sx.run(body)
         except _Fork as f:
@@ -1682,8 +1709,18 @@ def check_subcollections(ctx):
     p = ff.params()
     rep.add('X5', ff.site(), 'from_arrays stores values, bounds and kmerspec as given', sets == {'self.values': p[1], 'self.bounds': p[2], 'self.kmerspec': p[3]}, expected='self.values/bounds/kmerspec', found=sets, stmt='from_arrays')
     rep.functions.update({fli.qualname, fa.qualname, ff.qualname})
+    for nm, want in (('__len__', 'len(self.signatures)'), ('__iter__', 'iter(self.signatures)')):
+        fw = m.func(f'{BASE}.AnnotatedSignatures.{nm}')
+        rw = [r for r in stmts_in(fw.node.body) if isinstance(r, ast.Return)]
+        rep.functions.add(fw.qualname)
+        rep.add('X5', fw.site(), f'the annotated wrapper takes its {"length" if nm == "__len__" else "iteration order"} from the wrapped collection', len(rw) == 1 and u(rw[0].value) == want, expected=want, found=[u(r.value) for r in rw], stmt=f'wrapper {nm}')
+    fsl_len = m.func(f'{BASE}.SignatureList.__len__')
+    rl = [r for r in stmts_in(fsl_len.node.body) if isinstance(r, ast.Return)]
+    rep.functions.add(fsl_len.qualname)
+    rep.add('X5', fsl_len.site(), 'a list-backed collection is as long as its list', len(rl) == 1 and u(rl[0].value) == 'len(self._list)', expected='len(self._list)', found=[u(r.value) for r in rl], stmt='list length')
     # construction arithmetic (X8): every sub-collection built above goes through it (C05 / C12 re-evaluate it with this function)
     check_construction(ctx)
+    check_hierarchy(ctx, ('_check_index', '_getitem_int', '_getitem_slice', '_getitem_int_array', '_getitem_bool_array', '__len__', 'sizeof', 'sizes'), 'X5')
 
 
 def _ct(txt, sc):
@@ -1940,10 +1977,37 @@ def check_construction(ctx):
         okz = el is not None and u(el) in (f'self.sizeof({K})', f'len(self[{K}])') and cnt == sym('n')
         foundz = (u(el), str(cnt))
     rep.add('X8', fz.site(), 'sizes() lists sizeof(i) for every position i in order', okz, expected='self.sizeof(k) for k = 0 .. len(self) - 1', found=foundz, stmt='sizes')
+    fzo = m.func(f'{BASE}.AbstractSignatureArray.sizeof')
+    rep.functions.add(fzo.qualname)
+    rzo = [r for r in stmts_in(fzo.node.body) if isinstance(r, ast.Return)]
+    rep.add('X8', fzo.site(), 'generic sizeof(i) is the length of signature i', len(rzo) == 1 and u(Flow(fzo.node).value(rzo[0].value, rzo[0])) == f'len(self[{fzo.params()[1]}])', expected=f'len(self[{fzo.params()[1]}])',
+            found=[u(r.value) for r in rzo], stmt='generic sizeof')
     fzc = m.func(f'{C}.sizes')
     rep.functions.add(fzc.qualname)
     rzc = [r for r in stmts_in(fzc.node.body) if isinstance(r, ast.Return)]
     rep.add('X8', fzc.site(), 'concatenated collections: sizes are the differences of consecutive bounds', len(rzc) == 1 and u(rzc[0].value) == 'np.diff(self.bounds)', expected='np.diff(self.bounds)', found=[u(r.value) for r in rzc], stmt='concatenated sizes')
+
+
+def check_hierarchy(ctx, names, rule):
+    """Class-hierarchy view: for every class of the signature-collection family, each of the methods `names` resolves (by that
+    class's MRO) to an implementation some rule has analysed, to nothing (inherited from the abstract Sequence protocol, which is
+    built on the analysed ones), or to an abstract declaration.  An override nobody looked at is a path around the rules."""
+    rep, m = ctx.rep, ctx.model
+    ASA = f'{BASE}.AbstractSignatureArray'
+    fam = sorted((c for c in m.classes.values() if ASA in m.mro(c.qualname)), key=lambda c: c.qualname)
+    n = 0
+    for c in fam:
+        for nm in names:
+            f = m.find_method(c.qualname, nm)
+            if f is None:
+                continue
+            n += 1
+            body = [x for x in f.node.body if not (isinstance(x, ast.Expr) and isinstance(x.value, ast.Constant))]
+            abstract = any(u(d).endswith('abstractmethod') for d in f.node.decorator_list) or (len(body) == 1 and (isinstance(body[0], ast.Pass) or (isinstance(body[0], ast.Raise) and raised_name(body[0]) == 'NotImplementedError')))
+            rep.require(abstract or f.qualname in rep.functions, f'{c.qualname}: `{nm}` resolves to {f.qualname}, an override no rule of this check has analysed (a path around the analysed methods)')
+    rep.floor(rule, 'resolved methods of the collection family', n, 12)
+    rep.add(rule, (fam[0].module.relpath, fam[0].node.lineno, ASA), 'every indexing / equality method of every collection class resolves to an analysed implementation', True,
+            found=f'{n} (class, method) pairs over {len(fam)} classes', stmt=f'hierarchy {",".join(names)[:60]}')
 
 
 def check_mutators(ctx):
@@ -2044,32 +2108,156 @@ def check_equality(ctx):
     fe = m.func(f'{BASE}.AbstractSignatureArray.__eq__')
     rep.functions.add(fe.qualname)
     op = fe.params()[1]
-    # judged path by path: what is returned when `other` is a signature collection, and when it is not (if/else, guard clause,
-    # conditional expression, k-mer parameters compared in a separate guard: all the same to the rule)
+    # Judged path by path, and for the EFFECTIVE equality of every class of the hierarchy: `__eq__` and every method it
+    # dispatches to through `self.` are resolved by that class's MRO (hooks, overrides of hooks, super() calls are run in
+    # place).  What is returned when `other` is a signature collection must be equivalent to "same k-mer parameters, same
+    # length and element k equal for every k"; an override the rule cannot read is undecided, never a pass.
+    ASA = f'{BASE}.AbstractSignatureArray'
+    CSA = f'{BASE}.ConcatenatedSignatureArray'
     kI = ('isinstance', op, 'AbstractSignatureArray')
     kK = ('eq', *sorted([f'self.kmerspec', f'{op}.kmerspec']))
+    kL = ('eq', *sorted([f'len({op})', 'len(self)']))
+    fam = sorted((c for c in m.classes.values() if ASA in m.mro(c.qualname)), key=lambda c: c.qualname)
+    rep.floor('X7', 'classes in the signature-collection family', len(fam), 5)
+    desc_eq = 'collections are equal exactly when k-mer parameters and all signatures are equal'
 
-    def spec_eq(sc, sx):
-        ret = sx.outcome[1] if sx.outcome[0] == 'return' else None
-        got = sx.text(ret, sc) if ret is not None else sx.outcome[0]
-        if not sc[kI]:
-            return [('not implemented', 'comparison with anything else is NotImplemented', got == 'NotImplemented', 'NotImplemented', got)]
-        if kK in sx.read and not sc[kK]:
-            return [('equality', 'collections are equal exactly when k-mer parameters and all signatures are equal', got == 'False', 'False for different k-mer parameters', got)]
-        parts = list(sx.expand(ret).values) if isinstance(ret, ast.BoolOp) and isinstance(ret.op, ast.And) else ([sx.expand(ret)] if ret is not None else [])
-        seen = {'kmerspec'} if kK in sx.read else set()
-        okp = True
-        for part in parts:
-            a = atoms(part, True)
-            if a == {kK}:
-                seen.add('kmerspec')
-            elif u(part) in (f'sigarray_eq(self, {op})', f'sigarray_eq({op}, self)'):
-                seen.add('signatures')
+    def norm(txt, len_known):          # with equal lengths known, len(self) and len(other) are the same number
+        return txt.replace(f'len({op})', 'LEN_').replace('len(self)', 'LEN_') if len_known else txt
+
+    def swap(txt):          # the same expression about the other operand
+        return re.sub(r'\b(self|%s)\b' % re.escape(op), lambda mo: op if mo.group(1) == 'self' else 'self', txt)
+
+    def used_range(txt):
+        mo = re.fullmatch(r'self\.values\[self\.bounds\[0\]:self\.bounds\[(.+)\]\]', txt)
+        return bool(mo) and mo.group(1) in ('-1', 'len(self)', 'LEN_')
+
+    def about_self(x, y):
+        """(x, y) ordered so that the first speaks about self and the second is the same expression about the other operand."""
+        if swap(x) == y:
+            return (x, y) if re.search(r'\bself\b', x) else (y, x)
+        return None
+
+    def fact_of(node, len_known):
+        """Name of the fact a comparison establishes (None: not one the rule knows)."""
+        a = atoms(node, True)
+        if a == {kK}:
+            return 'KSPEC'
+        if a == {kL}:
+            return 'LEN'
+        t = u(node)
+        if t in (f'sigarray_eq(self, {op})', f'sigarray_eq({op}, self)'):
+            return 'SIGEQ'
+        if isinstance(node, ast.Call) and u(node.func) in ('np.array_equal', 'numpy.array_equal') and len(node.args) == 2 and not node.keywords:
+            pr = about_self(*(norm(u(z), len_known) for z in node.args))
+            if pr is None:
+                return None
+            x = pr[0]
+            if x == 'self.bounds':
+                return 'BOUNDS'
+            if x == 'self.values':
+                return 'WHOLE'
+            if x in ('self.sizes()', 'np.diff(self.bounds)'):
+                return 'SIZES'
+            if used_range(x):
+                return 'USED'
+            return None
+        if a and len(a) == 1 and len(next(iter(a))) == 3:
+            (k0, x, y), = a
+            if k0 == 'eq' and x.startswith('len(') and y.startswith('len('):
+                pr = about_self(norm(x[4:-1], len_known), norm(y[4:-1], len_known))
+                if pr is not None and used_range(pr[0]):
+                    return 'TOTAL'
+        return None
+
+    def judge_class(K):
+        raw = sx_paths(fe, module_constants(fe.module), model=m, recv_cls=K.qualname)
+        out = []          # (aspect, ok, expected, found)
+        crossed = sorted({k for sc, _ in raw for k in sc if k[0] == 'isinstance' and k[2] in fe.params()})
+        if crossed:
+            return [('equality', False, 'isinstance(<argument>, <class>)', f'type test with its operands the wrong way round: isinstance({crossed[0][1]}, {crossed[0][2]})'),
+                    ('not implemented', True, '', '')]
+        for sc, sx in raw:
+            ret = sx.outcome[1] if sx.outcome[0] == 'return' else None
+            got = sx.text(ret, sc) if ret is not None else sx.outcome[0]
+            when = _sc_text(sc)
+            if kI not in sc:
+                raise Undecided(f'{K.qualname}.__eq__: the result does not depend on whether the other operand is a signature collection on the path [{when}]')
+            if not sc[kI]:
+                out.append(('not implemented', got == 'NotImplemented' and not sx.top_effects(), 'NotImplemented', f'{got}   [when {when}]'))
+                continue
+            # facts known on this path: comparisons that were tested and came out true / false
+            len_known = sc.get(kL) is True
+            true_facts, false_facts, odd = set(), set(), []
+            for k, v in sc.items():
+                if k == kI or k[0] == 'isinstance':
+                    continue
+                f_ = 'KSPEC' if k == kK else 'LEN' if k == kL else None
+                if f_ is None and k[0] == 'eq':
+                    try:
+                        f_ = fact_of(ast.parse(f'{k[1]} == {k[2]}', mode='eval').body, len_known)
+                    except SyntaxError:
+                        f_ = None
+                if f_ is None:
+                    odd.append(k)
+                else:
+                    (true_facts if v else false_facts).add(f_)
+            if odd:
+                raise Undecided(f'{K.qualname}: the equality of this class depends on the test {odd[0]}, which the rule cannot relate to the signatures being equal')
+            necessary = {'KSPEC', 'LEN', 'TOTAL', 'SIZES', 'USED'}          # what equal collections always satisfy
+
+            def flat(t):
+                return [x for v in t.values for x in flat(v)] if isinstance(t, ast.BoolOp) and isinstance(t.op, ast.And) else [t]
+            parts = [x for x in flat(sx.expand(ret)) if not is_const(x, True)] if ret is not None else []
+            if any(isinstance(x, ast.Constant) and not x.value for x in parts):
+                just = false_facts & necessary
+                if false_facts - necessary:
+                    raise Undecided(f'{K.qualname}: compares unequal when {sorted(false_facts - necessary)} differ - arrays compared as a whole; equal collections stored at different offsets '
+                                    'would compare unequal, equivalence to element-wise equality cannot be shown')
+                out.append(('equality', bool(just), 'False only when a necessary condition of equality fails', f'return False   [when {when}]'))
+                continue
+            facts, unknown = set(true_facts), []
+            for part in parts:
+                f_ = fact_of(part, len_known or 'LEN' in facts)
+                if f_ is None:
+                    unknown.append(u(part)[:80])
+                else:
+                    facts.add(f_)
+            if false_facts & necessary:
+                out.append(('equality', False, 'False when a necessary condition of equality fails', f'{got} although {sorted(false_facts & necessary)} differ   [when {when}]'))
+                continue
+            if false_facts:
+                raise Undecided(f'{K.qualname}: a comparison is made after {sorted(false_facts)} came out different')
+            if ret is not None and not sx.top_effects() and unknown and all(isinstance(x, (ast.Name, ast.Constant)) for x in parts if fact_of(x, True) is None):
+                out.append(('equality', False, 'a comparison of k-mer parameters and signatures', f'{got}   [when {when}]'))      # a plain value, no comparison at all
+                continue
+            if unknown or ret is None or sx.top_effects():
+                raise Undecided(f'{K.qualname}: the equality of this class returns `{(unknown or [got])[0]}`, which the rule cannot read as a comparison of the signatures')
+            if 'SIGEQ' in facts:
+                sound = True
             else:
-                okp = False
-        return [('equality', 'collections are equal exactly when k-mer parameters and all signatures are equal', okp and seen == {'kmerspec', 'signatures'} and not sx.top_effects(),
-                 f'self.kmerspec == {op}.kmerspec and sigarray_eq(self, {op})', got)]
-    _judge(rep, fe, [kI, kK], spec_eq, rule='X7')
+                # whole-collection comparison of a concatenated layout: needs the layout of both operands
+                tself, toth = K.qualname, sx.types.get(op)
+                if not (CSA in m.mro(tself) and toth is not None and CSA in m.mro(toth)):
+                    raise Undecided(f'{K.qualname}: signatures are compared without sigarray_eq on operands the rule does not know to be concatenated collections')
+                sound = bool(facts & {'SIZES', 'BOUNDS'}) and ('USED' in facts or ('WHOLE' in facts and 'BOUNDS' in facts))
+            ok = sound and 'KSPEC' in facts
+            if ok and facts - necessary - {'SIGEQ'}:
+                raise Undecided(f'{K.qualname}: equality compares {sorted(facts - necessary - {"SIGEQ"})} (arrays as a whole): equal collections stored at different offsets would compare unequal; '
+                                'equivalence to element-wise equality cannot be shown')
+            out.append(('equality', ok, 'k-mer parameters equal, and sigarray_eq / (per-signature sizes equal and the concatenated signatures equal)',
+                        f'True when only {sorted(facts)} hold   [when {when}]'))
+        return out
+
+    for Kc in fam:
+        eqm, nem = m.find_method(Kc.qualname, '__eq__'), m.find_method(Kc.qualname, '__ne__')
+        rep.require(eqm is not None and eqm.qualname == fe.qualname, f'{Kc.qualname} overrides __eq__ ({eqm.qualname if eqm else None}): an equality the rule does not evaluate')
+        rep.require(nem is None, f'{Kc.qualname} defines __ne__ ({nem.qualname if nem else None}): an inequality the rule does not evaluate')
+        res = judge_class(Kc)
+        for aspect, text_ in (('equality', desc_eq), ('not implemented', 'comparison with anything else is NotImplemented')):
+            rows = [r for r in res if r[0] == aspect]
+            bad = [r for r in rows if not r[1]]
+            rep.add('X7', fe.site(), f'{Kc.node.name}: {text_}', bool(rows) and not bad, expected=(bad or rows or [(0, 0, '', '')])[0][2], found=bad[0][3] if bad else f'holds on all {len(rows)} paths',
+                    stmt=f'{Kc.node.name} {aspect}')
     fs = m.func(f'{BASE}.sigarray_eq')
     rep.functions.add(fs.qualname)
     a1, a2 = fs.params()[:2]
@@ -2106,6 +2294,7 @@ def check(ctx):
     check_subcollections(ctx)
     check_mutators(ctx)
     check_equality(ctx)
+    check_hierarchy(ctx, ('__eq__', '__ne__', '__getitem__', '__iter__', '__contains__', '__reversed__', 'index', 'count', '__setitem__', '__delitem__', 'insert'), 'X7')
 
 
 from ..variants import V  # noqa: E402
@@ -2159,6 +2348,11 @@ _GIA_ACC = ("\t\tspans = []\n\t\tlengths = []\n\t\tfor i in map(self._check_inde
             "\t\tout = SignatureArray.uninitialized(lengths, self.kmerspec, dtype=self.values.dtype)\n\n\t\tfor (start, stop), out_start, out_stop in zip(spans, out.bounds, out.bounds[1:]):\n"
             "\t\t\tnp.copyto(out.values[out_start:out_stop], self.values[start:stop], casting='unsafe')\n")
 _SL_GETINT = "\tdef _getitem_int(self, i: int):\n\t\treturn self._list[i]\n"
+_EQ_HOOK = ("\t\tif not isinstance(other, AbstractSignatureArray):\n\t\t\treturn NotImplemented\n\n\t\treturn self.kmerspec == other.kmerspec and self._eq_signatures(other)\n\n"
+            "\tdef _eq_signatures(self, other):\n\t\treturn sigarray_eq(self, other)\n")
+_CSA_GETINT = "\tdef _getitem_int(self, i):\n\t\treturn self.values[self.bounds[i]:self.bounds[i + 1]]\n"
+_EQ_OVERRIDE = ("\n\tdef _eq_signatures(self, other):\n\t\tif not isinstance(other, ConcatenatedSignatureArray):\n\t\t\treturn super()._eq_signatures(other)\n\n"
+                "\t\tn = len(self)\n\t\tif len(other) != n:\n\t\t\treturn False\n\n\t\t{ret}\n")
 _SLICE_FAST = "\t\tvalues = self.values[self.bounds[start]:self.bounds[stop]]\n\t\tbounds = self.bounds[start:(stop + 1)] - self.bounds[start]\n"
 _FILL = "\t\tfor i, idx in enumerate(indices):\n\t\t\tnp.copyto(out[i], self._getitem_int(idx), casting='unsafe')\n"
 _SIGEQ = "\treturn len(a1) == len(a2) and all(map(np.array_equal, a1, a2))"
@@ -2367,5 +2561,17 @@ VARIANTS = [
     V('E: list-backed slices taken by list slicing', 'E', _B, _SL_GETINT, _SL_GETINT + "\n\tdef _getitem_slice(self, index: slice):\n\t\treturn SignatureList(self._list[index], self.kmerspec, self.dtype)\n"),
     V('list-slicing fast path loses the dtype', 'B', _B, _SL_GETINT, _SL_GETINT + "\n\tdef _getitem_slice(self, index: slice):\n\t\treturn SignatureList(self._list[index], self.kmerspec)\n", 'X5'),
     V('list-slicing fast path drops the step', 'B', _B, _SL_GETINT, _SL_GETINT + "\n\tdef _getitem_slice(self, index: slice):\n\t\treturn SignatureList(self._list[index.start:index.stop], self.kmerspec, self.dtype)\n", 'X5'),
+    # ---- fourth pass: the effective equality of every class (hooks and their overrides)
+    V('E: signature comparison behind an overridable hook with the default only', 'E', _B, _EQ, _EQ_HOOK),
+    V('concatenated override of the equality hook ignores where signatures end (seeded C20d)', 'B', _B, _EQ, _EQ_HOOK, 'X7',
+      also=[(_B, _CSA_GETINT, _CSA_GETINT + _EQ_OVERRIDE.format(ret="v1 = self.values[self.bounds[0]:self.bounds[n]]\n\t\tv2 = other.values[other.bounds[0]:other.bounds[n]]\n\t\treturn len(v1) == len(v2) and np.array_equal(v1, v2)"))]),
+    V('concatenated override of the equality hook compares the bounds but not the values', 'B', _B, _EQ, _EQ_HOOK, 'X7',
+      also=[(_B, _CSA_GETINT, _CSA_GETINT + _EQ_OVERRIDE.format(ret="return np.array_equal(np.diff(self.bounds), np.diff(other.bounds))"))]),
+    V('concatenated override of the equality hook answers True for equal counts', 'B', _B, _EQ, _EQ_HOOK, 'X7',
+      also=[(_B, _CSA_GETINT, _CSA_GETINT + _EQ_OVERRIDE.format(ret="return True"))]),
+    V('E: concatenated override comparing the per-signature sizes and the concatenated signatures', 'E', _B, _EQ, _EQ_HOOK,
+      also=[(_B, _CSA_GETINT, _CSA_GETINT + _EQ_OVERRIDE.format(ret="return np.array_equal(self.sizes(), other.sizes()) and np.array_equal(self.values[self.bounds[0]:self.bounds[n]], other.values[other.bounds[0]:other.bounds[n]])"))]),
+    V('E: the same override written with the last bound', 'E', _B, _EQ, _EQ_HOOK,
+      also=[(_B, _CSA_GETINT, _CSA_GETINT + _EQ_OVERRIDE.format(ret="return np.array_equal(np.diff(self.bounds), np.diff(other.bounds)) and np.array_equal(self.values[self.bounds[0]:self.bounds[-1]], other.values[other.bounds[0]:other.bounds[-1]])"))]),
     V('E: out-of-place conversion', 'E', _I, "\t\t\t\tindex = index.copy()\n\t\t\t\tnp.add(index, len(self), out=index, where=isneg)\n", "\t\t\t\tindex = np.where(isneg, index + len(self), index)\n"),
 ]
